@@ -187,6 +187,18 @@ CLAIMED["C08"] = dict(
     technique="TLA+ spec of uniformity; exhaustive enumeration of the random source; result validation by TLC",
 )
 
+CLAIMED["C19"] = dict(
+    category="model_checking",
+    text="Expand.tla (same start class, no verified class offering a pack remains, no shared rule object, original unchanged) "
+         "together with SpecValid.tla and WordUniverse.tla judge expand_verified() on specifications with 1-6 strategy-verified "
+         "classes (verified root, verified classes beside symmetry/inferral equivalences, factories, a verification pack that needs "
+         "reverse rules), produced by each of the three rule databases under scripted time-slicings.",
+    design_ref="DESIGN.md 3/C19",
+    note="Trusted: TLC; rule-object identity is read with id() while all original rules are kept alive. The inner forest searches "
+         "are judged by their product only.",
+    technique="TLA+ post-condition specification; result validation by TLC",
+)
+
 NOT_YET = {}
 
 ALL = ["C%02d" % i for i in range(1, 21)]
